@@ -47,6 +47,8 @@ def run(ctx, tier):
         ctx.rule(r, t)
     ctx.rule("P6", "(second copy of the PATH set) path_signature_table flags exactly the bytes of the path percent-encode set: "
                    "no byte outside 0x21..0x7E is copied verbatim by the prepared-path shortcuts")
+    ctx.rule("P10", "(shared with C07.S8) the pathname setter takes an existing \"/.\" guard out of the buffer before the new path is written: "
+                    "a stale guard makes the href parse to a different href")
     ctx.rule("P9", "(shared with C10.H7) the address serializers switch digit counts at 0x10 / 0x100 / 0x1000 and 10 / 100, compress a "
                    "zero run only when longer than one piece, and count eight pieces: a serialised address re-parses to itself")
     ctx.rule("P8", "(shared with C10.H9) the IPv6 parsers store the address the literal denotes: the overlapping move of the pieces "
@@ -63,6 +65,8 @@ def run(ctx, tier):
         swar.check(ctx, fxs[name], "P7")
         from rules import c10 as _c10
         _c10.check_ipv6_move(ctx, fxs[name], "P8")
+        from rules import helpers_spec as _HS
+        _HS.check_dash_dot_removed(ctx, fxs[name], "P10")
         from rules import c10_limits
         c10_limits.check(ctx, fxs[name], "P9", table=c10_limits.SERIALIZER_LIMITS, floor=4, what="the digit counts of the serializers")
 
